@@ -32,12 +32,13 @@ func spec(marker string, devs ...string) []byte {
 type World struct {
 	Root       string
 	D0, D1     string
+	D2         string // configured with the lowest priority, missing at the start: created and removed by the directory operations
 	Multi      string // d1/multi.json
 	PreparedB  string // outside/multi-b.json, renamed over Multi by Switch
 }
 
 func Setup(root string) *World {
-	w := &World{Root: root, D0: filepath.Join(root, "d0"), D1: filepath.Join(root, "d1")}
+	w := &World{Root: root, D0: filepath.Join(root, "d0"), D1: filepath.Join(root, "d1"), D2: filepath.Join(root, "d2")}
 	_ = os.RemoveAll(root)
 	for _, d := range []string{w.D0, w.D1, filepath.Join(root, "outside")} {
 		_ = os.MkdirAll(d, 0o755)
@@ -162,7 +163,7 @@ func All() []Op {
 			return Result{Op: "Switch+Refresh"}
 		}},
 		{"Configure(dirs)", false, func(w *World, c *cdi.Cache) Result {
-			_ = c.Configure(cdi.WithSpecDirs(w.D0, w.D1))
+			_ = c.Configure(cdi.WithSpecDirs(w.Dirs()...))
 			return Result{Op: "Configure(dirs)"}
 		}},
 		{"Configure(auto)", false, func(w *World, c *cdi.Cache) Result {
@@ -197,6 +198,15 @@ func All() []Op {
 			d := c.GetSpecDirectories()
 			return Result{Op: "GetSpecDirectories", Obs: fmt.Sprint(len(d))}
 		}},
+		// a configured directory appears (a query then registers its watch and clears its error
+		// entry) and disappears again (the watcher goroutine records the removal)
+		{"Mkdir(d2)+ListDevices+Rmdir(d2)", false, func(w *World, c *cdi.Cache) Result {
+			_ = MkdirFn(w.D2, 0o755)
+			n := len(c.ListDevices())
+			_ = RemoveFn(w.D2)
+			_ = c.ListDevices()
+			return Result{Op: "Mkdir(d2)+ListDevices+Rmdir(d2)", Obs: fmt.Sprint(n > 0)}
+		}},
 	}
 }
 
@@ -209,8 +219,13 @@ func contains(l []string, x string) bool {
 	return false
 }
 
-// Switch is overridden by the explorer build to go through the environment model.
+// Dirs is the directory list the caches of the scenarios are configured with.
+func (w *World) Dirs() []string { return []string{w.D2, w.D0, w.D1} }
+
+// RenameFn, MkdirFn, RemoveFn are overridden by the explorer build to go through the environment model.
 var RenameFn = os.Rename
+var MkdirFn = os.Mkdir
+var RemoveFn = os.Remove
 
 // Switch atomically replaces multi.json (state A) by the prepared state-B file.
 func (w *World) Switch() {
